@@ -3,7 +3,7 @@ from checks import symgen, refqr, refmicro, refrmqr, gf256
 from checks.refqr import bits_of
 
 ID = 'C07'
-PROP_MODULES = ['QRV.Props.C07', 'QRV.Props.C06Micro', 'QRV.Props.C06RMQR', 'QRV.Props.C07RMQR', 'QRV.Props.C07Micro', 'QRV.Props.C01MicroWeak', 'QRV.Props.C07Overfull']
+PROP_MODULES = ['QRV.Props.C07', 'QRV.Props.C06Micro', 'QRV.Props.C06RMQR', 'QRV.Props.C07RMQR', 'QRV.Props.C07Micro', 'QRV.Props.C01MicroWeak', 'QRV.Props.C07Overfull', 'QRV.Props.C07OverfullExt']
 RULE = ('structurally valid symbols (correct function patterns, format information and Reed-Solomon parity, built by the independent reference encoder) whose DATA codewords are '
         'arbitrary: random bytes; bit streams made of every mode-indicator value, count fields at / below / beyond what the remaining codewords hold, digit groups >= 1000/100/10, '
         'alphanumeric pairs >= 2025, kanji codes that are unassigned or beyond the table, segments truncated in the middle of a character, valid segment lists followed by garbage. '
@@ -16,7 +16,7 @@ TRUSTED = [
     'symbol models tied by correspondence',
 ]
 ASSUMPTIONS = []
-PARTIAL = 'well-formedness of every decoded description is a theorem for all three decoders (qr_decoded_wf, micro_decoded_wf, rmqr_decoded_wf); re-encodability whenever it fits is a theorem for all three (QR, rMQR, Micro QR: micro_decoded_reencodes_any); over-full descriptions from truncated final characters are the recorded finding D16'
+PARTIAL = 'well-formedness of every decoded description is a theorem for all three decoders (qr_decoded_wf, micro_decoded_wf, rmqr_decoded_wf); re-encodability whenever it fits is a theorem for all three (QR, rMQR, Micro QR: micro_decoded_reencodes_any); over-full descriptions from truncated final characters are the recorded finding D16, whose extent is a theorem too (C07Overfull / C07OverfullExt: *_decoded_overfull_within_last_group - what a decoder returns exceeds the data codewords by less than its last read group), which is exactly the class the known-finding key of the oracle covers'
 MANIFEST = {
     'technique': 'Lean 4: every description the QR, Micro QR and rMQR decoder models return is well-formed (fields in range, version = size, modes supported, bytes valid per mode) and, QR, if it fits, re-encodes and decodes to itself (via the round-trip theorem); arbitrary-codeword symbols by differential runs',
     'text': ('QRV/Props/C07.lean proves for the QR decoder model: whatever DecodeBitmap returns has the version given by the bitmap size, level and mask in range, and only segments of supported modes whose bytes are '
